@@ -49,6 +49,33 @@ class RestConv(BaseConverter):
         return None if 'no' in value else tuple(value)
 
 
+class HexIntConv(BaseConverter):
+    """Registered on 'alt' routers only, under the names 'int' (replacing the built-in) and 'hex'."""
+
+    def __init__(self, num_digits=None, min=None, max=None):
+        self._num_digits, self._min, self._max = num_digits, min, max
+
+    def convert(self, value):
+        if self._num_digits is not None and len(value) != self._num_digits:
+            return None
+        if value.strip() != value:
+            return None
+        try:
+            v = int(value, 16)
+        except ValueError:
+            return None
+        if self._min is not None and v < self._min:
+            return None
+        if self._max is not None and v > self._max:
+            return None
+        return v
+
+
+class AltVetoConv(BaseConverter):
+    def convert(self, value):
+        return None if value.startswith('o') else 'W:' + value
+
+
 class Res:
     def __init__(self, tag):
         self.tag = tag
@@ -57,7 +84,29 @@ class Res:
         pass
 
     def __repr__(self):
-        return 'Res(%r)' % (self.tag,)
+        return '%s(%r)' % (type(self).__name__, self.tag)
+
+
+# resources that are legal (they have responders) but falsy
+class DictRes(Res, dict):
+    def __init__(self, tag):
+        dict.__init__(self)
+        self.tag = tag
+
+
+class BoolRes(Res):
+    def __bool__(self):
+        return False
+
+
+class LenRes(Res):
+    def __len__(self):
+        return 0
+
+
+RES_MODES = {       # which kind of resource object the n-th add of a world registers
+    0: [Res], 1: [DictRes], 2: [Res, DictRes], 3: [BoolRes, Res], 4: [Res, LenRes, DictRes], 5: [LenRes, BoolRes],
+}
 
 
 class Raised:
@@ -114,23 +163,59 @@ def has_backslash_complex(template):
     return False
 
 
+_PROFILES_SEEN = []          # converter profiles of the routers configured so far in this process
+
+
+def make_router(profile, late=False):
+    """A CompiledRouter whose OWN options.converters are updated in place (the documented way)."""
+    router = CompiledRouter()
+    conv = router.options.converters
+    conv['veto'] = VetoConv
+    conv['rest'] = RestConv
+    if profile == 'alt':
+        conv['int'] = HexIntConv
+        conv['veto'] = AltVetoConv
+        conv['hex'] = HexIntConv
+    if late:
+        conv['late'] = AltVetoConv
+        conv['float'] = HexIntConv
+    if profile not in _PROFILES_SEEN:
+        _PROFILES_SEEN.append(profile)
+    return router
+
+
 class World:
     """The real router, the reference model and the history (ops) that produced them."""
 
-    def __init__(self):
-        self.router = CompiledRouter()
-        self.router.options.converters['veto'] = VetoConv
-        self.router.options.converters['rest'] = RestConv
-        self.model = M.Model()
-        self.ops = []                 # ['add', template, compile, outcome, orphan_candidate] | ['find', path]
+    def __init__(self, profile='std', res_mode=0, before=None):
+        self.profile, self.res_mode = profile, res_mode
+        # other routers configured earlier in this process (recorded so that a replay in a fresh process
+        # has the same neighbours); they must not matter
+        self.before = list(_PROFILES_SEEN) if before is None else list(before)
+        self.neighbours = [make_router(p) for p in self.before if p not in _PROFILES_SEEN]
+        self.router = make_router(profile)
+        self.model = M.Model(M.CONVERTERS_ALT if profile == 'alt' else M.CONVERTERS)
+        self.n_adds = 0
+        # ['world', profile, res_mode] | ['add', template, compile, outcome, orphan_candidate] | ['find', path]
+        self.ops = [['world', profile, res_mode, self.before]]
         self.n_rejected = 0
         self.dead = None              # reason why this world cannot be judged further
         self.crashed = None           # add_route(compile=True) raised something that is not a refusal: the
         #                               tree may have been changed; one more lookup batch, then stop
         self.sig = None
 
+    def neighbour(self, profile, late=False):
+        """Another router is created (and its own converters customised) while this one is alive."""
+        self.neighbours.append(make_router(profile, late))
+        self.ops.append(['neighbour', profile, bool(late)])
+        self.sig = None
+
     def add(self, rec, template, compile=False, intent=None):
-        res = Res(len(self.ops))
+        kinds = RES_MODES[self.res_mode]
+        res = kinds[self.n_adds % len(kinds)](len(self.ops))
+        self.n_adds += 1
+        if rec is not None and not res:
+            rec.count('add.falsy-resource')
         k = multi_misuse_index(template)
         orphan_cand = bool(k) and not self.model.has_prefix(M.split_template(template)[:k])
         op = ['add', template, bool(compile), None, False]
@@ -154,6 +239,9 @@ class World:
                 self.dead = 'model cannot interpret accepted template %r: %s' % (template, ex)
                 if rec is not None:
                     rec.count('model.unparseable')
+                    if rec.counters['model.unparseable'] == 1:
+                        rec.mark_inconclusive('the real router accepted a template the reference cannot interpret '
+                                              '(%s); lookups on that router were not judged' % self.dead)
                 return op[3]
             if rec is not None:
                 rec.count('add.accepted')
@@ -182,9 +270,20 @@ class World:
 
 
 def rebuild(ops, skip=()):
-    w = World()
+    """ops[0] is the ['world', profile, res_mode] header.  Skipped adds still consume their resource
+    slot so that every remaining add registers the same kind of resource object as in the original."""
+    head = ops[0] if ops and ops[0][0] == 'world' else ['world', 'std', 0, []]
+    w = World(head[1], head[2], head[3] if len(head) > 3 else None)
     for i, op in enumerate(ops):
+        if op[0] == 'world':
+            continue
+        if op[0] == 'neighbour':
+            if i not in skip:
+                w.neighbour(op[1], op[2])
+            continue
         if i in skip:
+            if op[0] == 'add':
+                w.n_adds += 1
             continue
         if op[0] == 'add':
             w.add(None, op[1], op[2])
@@ -199,8 +298,14 @@ def rebuild(ops, skip=()):
 
 # ---------------------------------------------------------------- the oracle comparison
 
+def _show(v):
+    if type(v) is int and not -10**18 < v < 10**18:
+        return hex(v)               # repr() of a huge int runs into the int->str digit limit
+    return repr(v)
+
+
 def norm_params(p):
-    return sorted((k, type(v).__name__, repr(v)) for k, v in p.items())
+    return sorted((k, type(v).__name__, _show(v)) for k, v in p.items())
 
 
 def summary(x):
@@ -293,7 +398,10 @@ def candidates(ops):
 def shrink(ops, path, kind, budget=80):
     ops = [list(o) for o in ops]
     i = len(ops) - 1
-    while i >= 0 and budget > 0:
+    while i >= 1 and budget > 0:          # ops[0] is the world header
+        if ops[i][0] == 'neighbour':      # kept: whether it matters cannot be decided inside this process,
+            i -= 1                        # where the other router has been configured already
+            continue
         trial = ops[:i] + ops[i + 1:]
         budget -= 1
         w2 = rebuild(trial)
@@ -348,6 +456,8 @@ def check_path(rec, w, path):
     if w.n_rejected:
         nontrivial = True
         cnt('mon.find.after-rejected-add')
+    if w.model.last_resource is not None and not w.model.last_resource:
+        cnt('mon.find.matched-falsy-resource')
     if v is None:
         if nontrivial and rec.counters['keyed'] < MAX_KEYED:
             cnt('keyed')
@@ -389,7 +499,8 @@ def monitor_rejection_independent(rec, w, template, compile):
 
 U1 = '12345678-1234-5678-1234-567812345678'
 CONV_REPS = {
-    ('int', None): ['7', 'x', '-3', ' 1', '007'],
+    ('int', None): ['12', 'ff', '7', 'x', '-3', ' 1', '007'],      # 'ff'/'12': decimal and hex readings differ
+    ('hex', None): ['ff', 'x', '12', '-1'],
     ('int', '2'): ['12', '1', '123', 'ab'],
     ('int', 'num_digits=2'): ['12', '1', '123', 'ab'],
     ('int', 'min=5, max=10'): ['5', '4', '10', '11'],
@@ -427,7 +538,7 @@ def seg_reps(raw, newline=False, lean=False):
     if r is not None:
         return r
     try:
-        s = M.Seg(raw)
+        s = M.Seg(raw, M.CONVERTERS_ALT)       # superset of names; only the structure is used here
     except M.Unparseable:
         r = [raw, 'v']
         _reps_cache[ck] = r
@@ -475,7 +586,7 @@ def seg_reps(raw, newline=False, lean=False):
 
 def _is_complex(raw):
     try:
-        return M.Seg(raw).kind == M.CX
+        return M.Seg(raw, M.CONVERTERS_ALT).kind == M.CX
     except M.Unparseable:
         return False
 
@@ -486,7 +597,7 @@ _joint_cache = {}
 def joint_reps(a, b):
     r = _joint_cache.get((a, b))
     if r is None:
-        sa, sb = M.Seg(a), M.Seg(b)
+        sa, sb = M.Seg(a, M.CONVERTERS_ALT), M.Seg(b, M.CONVERTERS_ALT)
         inner = seg_reps(b, False, True)[0]
         nf = len(sa.fields)
         r = []
@@ -555,7 +666,8 @@ def run_batch(rec, w, paths):
         w.dead = 'add_route(compile=True) raised ' + w.crashed
 
 
-def run_routeset(rec, templates, flags, every_step, cap, rng, intents=None, newline=False, lean=False):
+def run_routeset(rec, templates, flags, every_step, cap, rng, intents=None, newline=False, lean=False,
+                 profile='std', res_mode=0):
     """-> True when every path of the representative product was executed."""
     levels = level_reps(templates, newline, lean)
     total = count_paths(levels)
@@ -565,7 +677,8 @@ def run_routeset(rec, templates, flags, every_step, cap, rng, intents=None, newl
     else:
         paths = list(dict.fromkeys(random_path(rng, levels) for _ in range(cap)))
         rec.count('routeset.sampled')
-    w = World()
+    w = World(profile, res_mode)
+    rec.count('world.profile.' + profile)
     for j, t in enumerate(templates):
         w.add(rec, t, compile=flags[j], intent=intents[j] if intents else None)
         if w.dead is not None:
@@ -662,7 +775,11 @@ def exhaustive(rec):
         r = idx // rec.nshards
         flags = [bool((r >> j) & 1) for j in range(len(templates))]
         every = bool((r >> len(templates)) & 1) or len(templates) == 1
-        ok = run_routeset(rec, templates, flags, every, cap, rng, lean=lean)
+        # resource kinds and the converter profile of the router vary with the index too; routers with
+        # different profiles therefore live in the same process one after the other
+        res_mode = (r >> 4) % len(RES_MODES)
+        profile = 'alt' if (r // 7) % 3 == 1 else 'std'
+        ok = run_routeset(rec, templates, flags, every, cap, rng, lean=lean, profile=profile, res_mode=res_mode)
         if not ok:
             rec.count('exhaustive.routesets-cut-short')     # sampled, or stopped by a recorded finding
         all_complete = all_complete and ok
@@ -702,6 +819,52 @@ def exhaustive(rec):
                  '%d triple-vocabulary templates (all ordered triples); every route set x every path over its '
                  'per-level representative product to depth max+1' % (len(T2), len(SPECIALS), len(T3)))
     return all_complete
+
+
+# ---------------------------------------------------------------- several routers in one process
+
+COHAB_T = ['/n/{v1:int}', '/m/{a1:int(2)}-{b1:veto}', '/h/{x1}', '/f/{g1:float}']
+
+
+def cohabitation(rec):
+    """A router's lookups depend on its own template tree and its own converters only: another router
+    that is created and customised before it, between its adds and its first compile, or after it was
+    compiled (followed by a recompile) must not matter.  Enumerated completely, sharded by index."""
+    extra = ['/h/{x1}/z', '/k/{q1:hex}', '/k/{q1:late}']
+    paths = list(all_paths(level_reps(COHAB_T + extra)))
+    idx = 0
+    for prof_b in ('std', 'alt'):
+        for prof_a in ('alt', 'std'):
+            for when in ('before-adds', 'before-first-compile', 'after-compile'):
+                for late in (False, True):
+                    for cflag in (False, True):
+                        idx += 1
+                        if idx % rec.nshards != rec.shard:
+                            continue
+                        w = World(prof_b, idx % len(RES_MODES))
+                        rec.count('world.profile.' + prof_b)
+                        if when == 'before-adds':
+                            w.neighbour(prof_a, late)
+                        for j, t in enumerate(COHAB_T):
+                            w.add(rec, t, compile=cflag and j == len(COHAB_T) - 1)
+                        if when == 'before-first-compile':
+                            w.neighbour(prof_a, late)
+                        run_batch(rec, w, paths)
+                        w.ops.append(['find', '/'])
+                        if when == 'after-compile':
+                            w.neighbour(prof_a, late)
+                            run_batch(rec, w, paths)                 # same compiled program
+                        if w.dead is None:
+                            w.add(rec, extra[0], compile=cflag)      # forces a recompile
+                            run_batch(rec, w, paths)
+                            w.ops.append(['find', '/'])
+                        for t in extra[1:]:
+                            if w.dead is None:
+                                w.add(rec, t, intent='unknown-conv' if (prof_b, t) != ('alt', extra[1]) else None)
+                        if w.dead is None:
+                            run_batch(rec, w, paths)
+                        rec.count('cohabitation.scenarios')
+    rec.count('cohabitation.done')
 
 
 # ---------------------------------------------------------------- random histories
@@ -903,7 +1066,8 @@ def random_history(rec, rng):
     orphaning = 0.12 <= fam < 0.27
     newline = 0.27 <= fam < 0.5
     g = Gen(rng, hostile, orphaning)
-    w = World()
+    w = World('alt' if rng.random() < 0.3 else 'std', rng.randrange(len(RES_MODES)))
+    rec.count('world.profile.' + w.profile)
     accepted, attempted = [], []
     n_adds = rng.randint(3, 14)
     lookups_every = rng.random() < 0.7
@@ -958,6 +1122,7 @@ def run(rec):
                        'no newline inside a value; int/float/uuid/dt accept what the Python builtins accept',
                        'acceptance of a template is observed from the real router, never predicted']
     rec.counters['keyed'] = 0
+    cohabitation(rec)
     complete = exhaustive(rec)
     rec.exhaustive = bool(complete)
     if rec.shard == 0:
@@ -975,6 +1140,12 @@ def run(rec):
     rec.floor('mon.find.after-rejected-add', 1000)
     rec.floor('exhaustive.pairs-done', rec.nshards)
     rec.floor('exhaustive.triples-done', rec.nshards)
+    rec.floor('cohabitation.done', rec.nshards)
+    rec.floor('cohabitation.scenarios', 48)
+    rec.floor('world.profile.alt', 100)
+    rec.floor('world.profile.std', 100)
+    rec.floor('add.falsy-resource', 1000)
+    rec.floor('mon.find.matched-falsy-resource', 1000)
     rec.floor('exhaustive.refused-specials-done', rec.nshards)
     for k in ('bt.lit>cx', 'bt.lit>simple', 'bt.cx>simple', 'bt.cx>cx', 'bt.veto>simple', 'bt.lit>multi',
               'bt.cx>multi', 'bt.then-none'):
@@ -996,9 +1167,18 @@ def run(rec):
 def replay(rec, w):
     wit = w['witness']
     rec.counters['keyed'] = 0
-    world = World()
-    for op in wit['ops']:
-        if op[0] == 'add':
+    ops = wit['ops']
+    head = ops[0] if ops and ops[0][0] == 'world' else ['world', 'std', 0, []]
+    world = World(head[1], head[2], head[3] if len(head) > 3 else None)
+    print('router profile %s, resource mode %s, routers configured earlier in the process: %s' % (
+        head[1], head[2], world.before))
+    for op in ops:
+        if op[0] == 'world':
+            continue
+        if op[0] == 'neighbour':
+            world.neighbour(op[1], op[2])
+            print('another router created: profile %s%s' % (op[1], ' + late registrations' if op[2] else ''))
+        elif op[0] == 'add':
             out = world.add(rec, op[1], op[2])
             print('add_route(%r, compile=%r) -> %s' % (op[1], op[2], out))
         else:
